@@ -34,7 +34,7 @@ def mnemonic_classes(facts):
 
 
 def criteria_of_path(path):
-    """(key, [(factory, args)]) for the criteria rule matched on this path, or None."""
+    """(key, [predicate values]) for the criteria rule matched on this path, or None."""
     key = None
     table = None
     for ev in path.events:
@@ -46,15 +46,9 @@ def criteria_of_path(path):
         return None
     for k, v in table[1]:
         if is_const(k) and k[1] == key:
-            preds = []
-            if v[0] != 'list':
+            if v[0] not in ('list', 'tuple'):
                 raise AnalysisError('criteria[{!r}] is not a literal list'.format(key))
-            for p in v[1]:
-                if p[0] == 'callv' and p[1][0] == 'closure':
-                    preds.append((p[1][1], [a[1] if is_const(a) else a for a in p[2]]))
-                else:
-                    raise AnalysisError('criteria[{!r}] contains a predicate that is not a factory call: {}'.format(key, show(p)))
-            return key, preds
+            return key, list(v[1])
     return None
 
 
@@ -66,8 +60,11 @@ class PassAnalysis:
         if self.fn is None:
             raise AnalysisError('anchor vanished: pass {}'.format(fname))
         self.sizes = Sizes(facts, incoming)
-        self.result = returned_list(self.fn)
         _, self.loop, self.paths = loop_paths(facts, self.fn)
+        self.walker = self.paths[0].walker if self.paths else None
+        # the function that contains the item loop: the pass itself, or the higher-order skeleton it delegates to
+        self.loop_fn = getattr(self.paths[0], 'loop_fn', self.fn) if self.paths else self.fn
+        self.result = returned_list(self.loop_fn)
         self.item = ('item', self.loop.target.id) if isinstance(self.loop.target, ast.Name) else None
         self.pos_var = self.find_position_var()
         self.mn_classes = mnemonic_classes(facts)
@@ -95,6 +92,14 @@ class PassAnalysis:
                             self.paths.append(p)
             self.rows = keep
 
+    def lifted(self, key, preds):
+        """[(formula, factory name, function node)] of the predicates of a criteria rule (cached per key)."""
+        cache = self.__dict__.setdefault('_lifted', {})
+        if key not in cache:
+            from .predlift import lift_predicate
+            cache[key] = [lift_predicate(self.walker, p, self.facts) for p in preds]
+        return cache[key]
+
     def _flatten(self, syms):
         out = []
         todo = list(syms)
@@ -108,14 +113,18 @@ class PassAnalysis:
     def find_position_var(self):
         """The running-offset variable: a local initialised to the constant 0 before the loop and advanced by += inside it."""
         zero = set()
-        for st in self.fn.body:
+        for st in self.loop_fn.body:
             if st is self.loop:
                 break
             if isinstance(st, ast.Assign) and len(st.targets) == 1 and isinstance(st.targets[0], ast.Name) \
                     and isinstance(st.value, ast.Constant) and st.value.value == 0 and not isinstance(st.value.value, bool):
                 zero.add(st.targets[0].id)
         adv = {}
-        for n in ast.walk(self.loop):
+        from .pathwalk import local_closures
+        closures = local_closures(self.loop_fn)
+        called = {n.func.id for n in ast.walk(self.loop) if isinstance(n, ast.Call) and isinstance(n.func, ast.Name) and n.func.id in closures}
+        region = [self.loop] + [closures[c] for c in called]
+        for n in [x for r in region for x in ast.walk(r)]:
             if isinstance(n, ast.AugAssign) and isinstance(n.op, ast.Add) and isinstance(n.target, ast.Name) and n.target.id in zero:
                 adv[n.target.id] = adv.get(n.target.id, 0) + (2 if 'size' in unparse(n.value) else 1)
         if not adv:
@@ -129,7 +138,8 @@ class PassAnalysis:
         crit = criteria_of_path(path)
         if crit is not None:
             key, preds = crit
-            names = [a[0] for f, a in preds if f == 'NameEquals']
+            names = [f[3][1] for f, _, _ in self.lifted(key, preds)
+                     if f[0] == 'cmp' and f[1] == '==' and f[2] == ('NAME',) and f[3][0] == 'const']
             if len(names) == 1:
                 nm = names[0]
                 st.fact(('attr', self.item, 'name'))['eq'] = C(nm)
@@ -237,7 +247,7 @@ def check_conservation(report, pa, rule, expect_label_writes):
 def check_order_only(report, pa, rule):
     """R9.1: result built by append/extend in iteration order only."""
     bad = []
-    for n in ast.walk(pa.fn):
+    for n in ast.walk(pa.loop_fn):
         if isinstance(n, ast.Call) and isinstance(n.func, ast.Attribute) and isinstance(n.func.value, ast.Name) \
                 and n.func.value.id == pa.result and n.func.attr in ('insert', 'sort', 'reverse', 'pop', 'remove', 'clear', '__setitem__'):
             bad.append(n)
@@ -247,9 +257,9 @@ def check_order_only(report, pa, rule):
                 if isinstance(t, ast.Subscript) and isinstance(t.value, ast.Name) and t.value.id == pa.result:
                     bad.append(n)
     # the returned value is the list itself, not a reordering of it
-    for n in ast.walk(pa.fn):
+    for n in ast.walk(pa.loop_fn):
         if isinstance(n, ast.Return) and n.value is not None and not (isinstance(n.value, ast.Name) and n.value.id == pa.result) \
-                and pa.result is not None and n in pa.fn.body:
+                and pa.result is not None and n in pa.loop_fn.body:
             bad.append(n)
     for b in bad:
         report.fail(Finding(rule, pa.fname, b, 'the item list is reordered / edited in place instead of being built by append in source order', line=b.lineno))
@@ -257,7 +267,7 @@ def check_order_only(report, pa, rule):
         report.ok(rule, '{}: result list built by append/extend only'.format(pa.fname))
     # iteration is over the input list itself
     it = pa.loop.iter
-    ok = isinstance(it, ast.Name) and it.id in [a.arg for a in pa.fn.args.args]
+    ok = isinstance(it, ast.Name) and it.id in [a.arg for a in pa.loop_fn.args.args]
     report.check(ok, rule, '{}: iterates the input item list in order'.format(pa.fname),
                  lambda: Finding(rule, pa.fname, pa.loop.iter, 'the pass does not iterate its input list in order: for ... in {}'.format(unparse(it)),
                                  line=pa.loop.lineno))
